@@ -139,7 +139,21 @@ func C02(tier string) int {
 		run.HarnessErr = err
 		return run.Finish()
 	}
+	// Histories with a storage fault below the store API: the first proposal is served while the storage is full.
+	fullRuns, fullBad, err := sigStorageFull(tier, [][]HReq{
+		{{Kind: "prop", Keys: []int{0}, Slot: 5, Root: 1}, {Kind: "prop", Keys: []int{0}, Slot: 5, Root: 2}},
+		{{Kind: "prop", Keys: []int{0}, Slot: 0, Root: 1}, {Kind: "prop", Keys: []int{0}, Slot: 0, Root: 2}},
+		{{Kind: "prop", Keys: []int{1}, Slot: 7, Root: 1}, {Kind: "prop", Keys: []int{1}, Slot: 6, Root: 2}},
+	})
+	if err != nil {
+		run.HarnessErr = err
+		return run.Finish()
+	}
+	for _, b := range fullBad {
+		run.Violate("storage-full-double-proposal:"+firstWords(b, 1), b, map[string]any{"check": "C02", "storage_full": true})
+	}
 	run.Coverage = map[string]any{
+		"storage_full_histories_run":    fullRuns,
 		"states":                        r1.States + r2.States,
 		"transitions":                   r1.Transitions + r2.Transitions,
 		"traces_validated_against_impl": r1.Transitions + r2.Transitions,
